@@ -202,7 +202,7 @@ impl Check for C14 {
                 // wrappers that are "no-ops" elsewhere (self-described CBOR, embedded CBOR, CWT, date/time,
                 // bignum tags) must not be looked through, on either side of the registered tag, nor
                 // around a bstr holding the encoded body
-                for w in [55799u64, 24, 61, 0, 1, 2, 3, 32, 21, 22, 23, 63] {
+                for w in [55799u64, 24, 61, 0, 1, 2, 3, 32, 21, 22, 23, 63, 258, 259, 256, 1001, 65535] {
                     let wrapped_body = Item::Tag(w, Box::new(body_item.clone()));
                     let wrapped_bstr = Item::Tag(w, Box::new(Item::Bytes(body.clone())));
                     for (what, x, head) in [
